@@ -834,3 +834,13 @@ def c07_n(ctx):
 def c07_dtype(ctx):
     from .base import inherited_dtype_obligation
     inherited_dtype_obligation(ctx, ['elfi.methods.inference.samplers', 'elfi.methods.utils'])
+
+
+@obligation('C07-p', 'T4', 'the inner rejection round\'s batch-count estimate adds its safety margin '
+            '(shared with C01-m)', floor=1,
+            necessary='every population must hold exactly n_samples particles below the round\'s '
+                      'threshold: an estimate that can fall to the consumed batches while a '
+                      'particle is missing ends the round with an unfilled row')
+def c07_p(ctx):
+    from . import C01
+    C01.c01_m(ctx)
